@@ -1520,7 +1520,7 @@ def _chk_modelpart(inp):
     rvs2, ref2 = _ref_only(inp['to'])
     v0 = dict(inp['values'])
     v0['THETA_X'] = 7.0
-    if _validity(ref1, v0)[0] != 'pd':
+    if not _all_blocks_pd(ref1, v0):
         return []      # precondition: the values are valid for the structure the model is created with
     roles = _union_roles(ref1, ref2)
     show = lambda ref: [[[ref['cov'][(x, y)] for y in b] for x in b] for b in ref['blocks']]   # noqa
@@ -1562,18 +1562,33 @@ def _chk_modelpart(inp):
     return fails
 
 
+_PD_MEMO = {}
+
+
+def _all_blocks_pd(ref, values):
+    """every joint block is positive definite under the values (exact; memoised per block matrix)"""
+    for _, M in _block_matrices(ref, values):
+        key = tuple(tuple(row) for row in M)
+        if key not in _PD_MEMO:
+            _PD_MEMO[key] = _exact_class(M) == 'pd'
+        if not _PD_MEMO[key]:
+            return False
+    return True
+
+
 def _partitions(n, variant):
     return [{'variant': variant, 'blocks': [[s, 'IIV'] for s in comp]} for comp in _compositions(n)]
 
 
 def _modelpart_inputs(tier):
     out = []
-    if tier == 'thorough':
-        vargrid, covgrid = [0.5, 2], GRID
-    else:
-        vargrid, covgrid = [0.5, 2], [-1, 0, 0.5, 2]
+    vargrid = [0.5, 2]
     for variant in ('distinct', 'shared'):
         for n in (2, 3):
+            if tier == 'thorough':
+                covgrid = GRID if n == 2 else [-1, -0.5, 0, 0.5, 1, 2]
+            else:
+                covgrid = [-1, 0, 0.5, 2]
             parts = _partitions(n, variant)
             for d1 in parts:
                 for d2 in parts:
@@ -1585,7 +1600,7 @@ def _modelpart_inputs(tier):
                     names = sorted(roles)
                     for vals in itertools.product(*[vargrid if roles[p] == 'var' else covgrid for p in names]):
                         values = dict(zip(names, [float(v) for v in vals]))
-                        if _validity(ref1, values)[0] == 'pd':
+                        if _all_blocks_pd(ref1, values):
                             out.append({'from': d1, 'to': d2, 'values': values})
     return out
 
@@ -1901,7 +1916,8 @@ def bounded_rv_numeric(tier):
              % ('the same grid' if thorough else 'the grid {-1,-0.5,0,0.5,1,2}', ' and all symmetric 4x4 matrices on {-1,0,1}' if thorough else '',
                 counts['psd'], counts['corr'], 4 if thorough else 3, counts['sdcorr'], '{0,0.5,1,2}' if thorough else '{0.5,1,2}', counts['valid'],
                 counts['model'], '-0.9..0.9' if thorough else '-0.5/0.1/0.5', counts['ucp'], counts['mm'],
-                'the grid {-2,-1,-0.5,0,0.5,1,2}' if thorough else '{-1,0,0.5,2}', counts['modelpart']))
+                'the grid {-2,-1,-0.5,0,0.5,1,2} (2 variables) / {-1,-0.5,0,0.5,1,2} (3 variables)' if thorough else '{-1,0,0.5,2}',
+                counts['modelpart']))
     return col.result(bound)
 
 
